@@ -190,11 +190,14 @@ structure Wire where
 deriving Repr
 
 /-- table update performed by the wrapper once its (correctly typed) response arrived.
-    `rsid`/`ralias` are AssignedStreamID / AssignedStreamIDAlias of the response (where it has them). -/
-def afterResponse (t : Tables) (k : Kind) (a : ReqArgs) (rsid ralias : Nat) : Tables :=
+    `rsid`/`ralias` are AssignedStreamID / AssignedStreamIDAlias of the response (where it has them); `accepted` = the
+    response's result code is Succeeded. -/
+def afterResponse (t : Tables) (k : Kind) (a : ReqArgs) (rsid ralias : Nat) (accepted : Bool := true) : Tables :=
   match k with
-  | .upOpen => (rstep t (.openUp rsid ralias)).1
-  | .upResume => (rstep t (.openUp a.sid ralias)).1
+  -- an upstream is registered under the alias the broker assigned — when the broker accepted the request; a refusal assigns
+  -- nothing (its alias field is whatever the broker left there, typically 0, which may be another stream's alias)
+  | .upOpen => if accepted then (rstep t (.openUp rsid ralias)).1 else t
+  | .upResume => if accepted then (rstep t (.openUp a.sid ralias)).1 else t
   | .upClose => (rstep t (.closeUp a.sid)).1
   | .downOpen => (rstep t (.openDown rsid a.alias)).1
   | .downResume => (rstep t (.openDown a.sid a.alias)).1
@@ -206,13 +209,13 @@ def wreq (w : Wire) (caller : Nat) (k : Kind) (a : ReqArgs) : Wire × Out :=
   let (c', o) := step w.c (.req caller k)
   ({ w with c := c', args := alPut caller a w.args }, o)
 
-def wresp (w : Wire) (id : Nat) (rk : RKind) (rsid ralias : Nat) : Wire × Out :=
+def wresp (w : Wire) (id : Nat) (rk : RKind) (rsid ralias : Nat) (accepted : Bool := true) : Wire × Out :=
   let kind? := (w.c.waiting.find? (fun x => alGet id w.c.pending = some x.caller ∧ x.id = id)).map (·.kind)
   let (c', o) := step w.c (.resp id rk)
   match o, kind? with
   | .delivered caller _, some k =>
     let a := (alGet caller w.args).getD {}
-    ({ w with c := c', t := afterResponse w.t k a rsid ralias }, o)
+    ({ w with c := c', t := afterResponse w.t k a rsid ralias accepted }, o)
   | _, _ => ({ w with c := c' }, o)
 
 def wcancel (w : Wire) (caller : Nat) : Wire × Out :=
